@@ -11,7 +11,22 @@ def main(argv):
     replay = len(argv) > 5 and argv[5] == "replay"
     from . import import_target
     from .core import Ctx
-    import_target()
+    try:
+        import_target()
+    except BaseException as e:
+        if not sys.flags.optimize:
+            raise
+        # the package imports under the plain interpreter (the other shards run) but not under python -O / -OO: every
+        # request of every caller running with that flag fails
+        ctx = Ctx(prop, tier, int(seed), json.loads(specjson))
+        ctx.judged()
+        ctx.exception("library_cannot_be_imported_under_python_-%s" % ("O" * int(sys.flags.optimize)),
+                      {"kind": json.loads(specjson).get("kind"), "idx": 0, "seed": int(seed)}, e)
+        rep = ctx.report()
+        rep.update({"status": "ok", "error": None, "wall_s": 0.0})
+        with open(out, "w") as f:
+            json.dump(rep, f)
+        return 0
     import numpy as np
     np.seterr(all="warn")
     mod = importlib.import_module("twverif.checks." + prop.lower())
